@@ -1266,7 +1266,7 @@ def tree(draw, s, dt, depth, first=None):
     if depth <= 0:
         return leaf_for(draw, s, dt, only=first)
     kind = draw(st.sampled_from(["leaf", "compose", "compose", "add", "scale", "hstack", "vstack", "diag",
-                                 "conj", "H", "HH", "neg", "sumchain", "stack1"]))
+                                 "conj", "H", "HH", "neg", "sumchain", "stack1", "perms"]))
     if kind == "leaf":
         return leaf_for(draw, s, dt, only=first)
     if kind == "compose":
@@ -1279,6 +1279,17 @@ def tree(draw, s, dt, depth, first=None):
         o, _ = shape_of(a)
         b = fit(draw, tree(draw, s, dt, depth - 1), o)
         return {"op": draw(st.sampled_from(["Add", "Sub"])), "a": a, "b": b}
+    if kind == "perms":
+        # a product of two or three pure index permutations (Transpose / Flip / Circshift / Reshape) that do not commute
+        # in general: the order in which a product applies its factors is all there is to get wrong
+        k = draw(st.integers(2, 3))
+        cur = list(s)
+        ops = []
+        for j in range(k):
+            t = leaf_for(draw, cur, dt, only=[n for n in ("Transpose", "Transpose", "Flip", "Circshift", "Reshape") if LEAF_GENS[n][1](cur)])
+            ops.append(t)
+            cur, _ = shape_of(t)
+        return {"op": "Compose", "ops": ops[::-1]}
     if kind == "stack1":
         # a stack of exactly ONE operand (what a loop over a list of length 1 builds), every axis form
         a = tree(draw, s, dt, depth - 1, first)
